@@ -64,15 +64,17 @@ namespace
     sym_reach("end");
   }
   // slab: top/bottom temperature; fault: center/side temperature.  Linear in the distance between the model's min and max distance.
-  template <class M> void line_linear_T(const bool fault, const double M::*t0, const double M::*t1)
+  template <class M> void line_linear_T(const bool fault, const double M::*t0, const double M::*t1, const bool any_range)
   {
     Q q = query(); M *m = build<M>(q.w);
     const double d = fault ? std::fabs(q.pd.distance_from_plane) : q.pd.distance_from_plane;
-    sym_assume(m->max_depth - m->min_depth >= 1e-9);
+    if (!any_range) sym_assume(m->max_depth - m->min_depth >= 1e-9);      // any_range: C13's domain-safety run over the whole schema domain (min == max is a legal file)
+    else sym_assume(m->max_depth >= m->min_depth);
     const double T = m->M::get_temperature(q.pos, q.depth, q.g, q.old, q.fmin, q.fmax, q.pd, q.ap);
     sym_assert(sym_writes() == 0, "the model query stores only to fresh memory");
     if (!(d <= m->max_depth && d >= m->min_depth)) { sym_assert(sym_eq(T, q.old), "outside its own range the model returns the incoming value"); sym_reach("end-out"); return; }
     const double a = m->*t0 >= 0 ? m->*t0 : adiabat(q.w, q.g, m->min_depth), b = m->*t1 >= 0 ? m->*t1 : adiabat(q.w, q.g, m->max_depth);      // negative => adiabatic
+    if (any_range) { sym_reach("end"); return; }
     const double value = a + (d - m->min_depth) * (b - a) / (m->max_depth - m->min_depth);
     sym_assert(sym_eq(T, combine(m->operation, q.old, value)), "linear temperature: linear in the distance between the model's two bounds (negative end members => adiabat there)");
     sym_reach("end");
@@ -111,10 +113,10 @@ namespace
 }
 extern "C" void h_c05_line_uniform_T(unsigned long fault) { if (fault) line_uniform_T<FM::Temperature::Uniform>(true); else line_uniform_T<SP::Temperature::Uniform>(false); }
 extern "C" void h_c05_line_adiabatic_T(unsigned long fault) { if (fault) line_adiabatic_T<FM::Temperature::Adiabatic>(true); else line_adiabatic_T<SP::Temperature::Adiabatic>(false); }
-extern "C" void h_c05_line_linear_T(unsigned long fault)
+extern "C" void h_c05_line_linear_T(unsigned long fault, unsigned long any_range)
 {
-  if (fault) line_linear_T<FM::Temperature::Linear>(true, &FM::Temperature::Linear::center_temperature, &FM::Temperature::Linear::side_temperature);
-  else line_linear_T<SP::Temperature::Linear>(false, &SP::Temperature::Linear::top_temperature, &SP::Temperature::Linear::bottom_temperature);
+  if (fault) line_linear_T<FM::Temperature::Linear>(true, &FM::Temperature::Linear::center_temperature, &FM::Temperature::Linear::side_temperature, any_range != 0);
+  else line_linear_T<SP::Temperature::Linear>(false, &SP::Temperature::Linear::top_temperature, &SP::Temperature::Linear::bottom_temperature, any_range != 0);
 }
 extern "C" void h_c05_line_uniform_C(unsigned long fault, unsigned long n) { if (fault) line_uniform_C<FM::Composition::Uniform>(true, n); else line_uniform_C<SP::Composition::Uniform>(false, n); }
 extern "C" void h_c05_line_uniform_V(unsigned long fault) { if (fault) line_uniform_V<FM::Velocity::UniformRaw>(true); else line_uniform_V<SP::Velocity::UniformRaw>(false); }
